@@ -158,7 +158,14 @@ def fold(e, env=None):
         try:
             return env(text)
         except NotConst:
+            pass
+        try:
+            base = fold(e.value, env)
+        except NotConst:
             raise NotConst("attribute %s" % text)
+        if isinstance(base, tuple) and hasattr(base, "_fields") and e.attr in base._fields:
+            return getattr(base, e.attr)       # field of a record (namedtuple)
+        raise NotConst("attribute %s" % text)
     if isinstance(e, (ast.ListComp, ast.GeneratorExp, ast.SetComp)):
         if len(e.generators) != 1:
             raise NotConst("nested comprehension")
@@ -187,6 +194,34 @@ def fold(e, env=None):
     if isinstance(e, ast.Call):
         f = e.func
         ftxt = ast.unparse(f)
+        if ftxt in ("namedtuple", "collections.namedtuple") and len(e.args) >= 2:
+            # a record type of the module: built here with the same field names (pure)
+            import collections as _c
+            tn, fields = fold(e.args[0], env), fold(e.args[1], env)
+            kw = {k.arg: fold(k.value, env) for k in e.keywords if k.arg in ("defaults", "rename")}
+            try:
+                return _c.namedtuple(str(tn), fields, **kw)
+            except Exception as ex:  # noqa
+                raise NotConst("namedtuple: %s" % ex)
+        if isinstance(f, ast.Attribute) and f.attr in ("_replace", "_asdict"):
+            recv = fold(f.value, env)
+            if isinstance(recv, tuple) and hasattr(recv, "_fields"):
+                try:
+                    return getattr(recv, f.attr)(**{k.arg: fold(k.value, env) for k in e.keywords if k.arg})
+                except Exception as ex:  # noqa
+                    raise NotConst("%s: %s" % (f.attr, ex))
+        if isinstance(f, ast.Name):
+            try:
+                rec = env(f.id)
+            except NotConst:
+                rec = None
+            if isinstance(rec, type) and issubclass(rec, tuple) and hasattr(rec, "_fields"):
+                try:
+                    return rec(*[fold(a, env) for a in e.args], **{k.arg: fold(k.value, env) for k in e.keywords if k.arg})
+                except NotConst:
+                    raise
+                except Exception as ex:  # noqa
+                    raise NotConst("record: %s" % ex)
         if ftxt in ("re.compile",):
             pat = fold(e.args[0], env)
             flags = 0
